@@ -100,7 +100,10 @@ impl<A: AcceptableMasterList, C: Clock, F: Filter, R: Rng, S: PtpInstanceStateMu
                 && self.port_identity.port_number > message.header.source_port_identity.port_number
             {
                 self.multiport_disable = Some(Duration::ZERO);
-                self.set_forced_port_state(PortState::Passive);
+                // a port disabled by a peer delay fault stays disabled
+                if !matches!(self.port_state, PortState::Faulty) {
+                    self.set_forced_port_state(PortState::Passive);
+                }
             }
             actions![PortAction::ResetAnnounceReceiptTimer {
                 duration: self.config.announce_duration(&mut self.rng),
@@ -259,7 +262,7 @@ impl<A, C: Clock, F: Filter, R: Rng, S: PtpInstanceStateMutex> Port<'_, InBmca, 
                         }
                     }
                 } else if self.multiport_disable.is_some() {
-                    if !matches!(self.port_state, PortState::Passive) {
+                    if !matches!(self.port_state, PortState::Passive | PortState::Faulty) {
                         self.set_forced_port_state(PortState::Passive);
                     }
                 } else {
